@@ -118,6 +118,9 @@ class C02(common.ModelProperty):
                 # a subclass whose remove_vertex override admits some vertices again at once
                 ["Universe", "SanctuaryUniverse"],
                 ["SanctuaryUniverse", "SubUniverse"],
+                # a subclass with a container protocol (`in`, iteration) of its own
+                ["Universe", "RegionUniverse"],
+                ["RegionUniverse"],
             ]
         )
         cfg["edge_classes"] = ["DirectedEdge"]
